@@ -34,9 +34,15 @@ pub fn signed_shift<'a>(term: &Term<'a>, cutoff: usize, amount: isize) -> Option
                         ),
                     })
                 } else {
+                    #[cfg(feature = "verif")]
+                    crate::verif_hooks::shift_unresolved_refused();
+
                     None
                 }
             } else {
+                #[cfg(feature = "verif")]
+                crate::verif_hooks::shift_unresolved_below_cutoff();
+
                 Some(term.clone())
             }
         }
@@ -205,6 +211,11 @@ pub fn open<'a>(
 ) -> Term<'a> {
     match &term_to_open.variant {
         Unifier(subterm, subterm_shift) => {
+            #[cfg(feature = "verif")]
+            if subterm.borrow().is_none() {
+                crate::verif_hooks::open_unresolved();
+            }
+
             // We `clone` the borrowed `subterm` to avoid holding the dynamic borrow for too long.
             { subterm.borrow().clone() }.map_or_else(
                 || Term {
